@@ -89,10 +89,10 @@ Definition is_nl (c : N) : bool := ((c =? c_nl) || (c =? c_cr))%N.
 Definition is_digit (c : N) : bool := ((48 <=? c) && (c <=? 57))%N.
 Definition is_alpha_ (c : N) : bool :=
   (((97 <=? c) && (c <=? 122)) || ((65 <=? c) && (c <=? 90)) || (c =? 95))%N.
-(* RE_NAME: ^[a-zA-Z_.][a-zA-Z0-9_.]* *)
+(* RE_NAME: ^[a-zA-Z_.] then any number of [a-zA-Z0-9_.] *)
 Definition name_start (c : N) : bool := is_alpha_ c || (c =? 46)%N.
 Definition name_cont (c : N) : bool := name_start c || is_digit c.
-(* third alternative of RE_TOKEN: [a-zA-Z_][a-zA-Z_0-9]* *)
+(* third alternative of RE_TOKEN: [a-zA-Z_] then any number of [a-zA-Z_0-9] *)
 Definition tok_start (c : N) : bool := is_alpha_ c.
 Definition tok_cont (c : N) : bool := is_alpha_ c || is_digit c.
 
@@ -133,7 +133,8 @@ Fixpoint scan_quote (q : N) (r : str) : option nat :=
       else match scan_quote q r' with Some n => Some (len_utf8 c + n) | None => None end
   end.
 
-(* RE_TOKEN.find(r): ^(?:(".+?")|('.+?')|([a-zA-Z_][a-zA-Z_0-9]*)), leftmost-first, lazy *)
+(* RE_TOKEN.find(r): a double-quoted [.+?], a single-quoted [.+?] or an identifier
+   [a-zA-Z_][a-zA-Z_0-9]* (star), anchored, leftmost-first, lazy *)
 Definition re_token (r : str) : option nat :=
   match r with
   | [] => None
